@@ -281,7 +281,7 @@ func c09sites(p *Program, r *Report, rule string) {
 	}
 	// the helpers are called only from the arming function (inside the window: C09.armed)
 	for callee, caller := range map[string]string{"readFrameHeader": "Conn.readFrameHeader", "writeFrameHeader": "Conn.writeFrame", "Conn.writeFramePayload": "Conn.writeFrame"} {
-		if fn := p.FuncOpt(callee); fn != nil {
+		if fn := p.FuncOpt(callee); fn != nil && p.absorbed[callee] != fn {
 			for _, cs := range p.CallersOf(fn) {
 				r.Check(rule+".helpers", p.FuncName(cs.Fn), callee, p.InstrPos(cs.Instr), p.FuncName(cs.Fn) == caller, callee+" is called only from "+caller, p.FuncName(cs.Fn))
 			}
